@@ -76,7 +76,10 @@ def _coq_obs(syn: Dict[str, Any], tid: Dict[str, int], ntypes: int) -> Optional[
 
 def lr_stage(ck: Check, prop_file: str, sizes_quick: Dict[str, int], sizes_thorough: Dict[str, int],
              label: str) -> None:
+    import time
+    t_start = time.time()
     ck.try_prove(prop_file, model_vo=("theories/LRFront.vo", "theories/LRCase.vo"))
+    t_proved = time.time()
     for a in ASSUME:
         if a not in ck.assumptions:
             ck.assumptions.append(a)
@@ -288,5 +291,7 @@ def lr_stage(ck: Check, prop_file: str, sizes_quick: Dict[str, int], sizes_thoro
         f"{label}: distinct (outcome, last reductions, offending token type) per case"
     cov["samples"] = (cov.get("samples") or []) + samples
     cov["tie"][f"{label}"] = {"cases": len(rows), "trees": len(trows), "productions": len(prods),
-                               "states": None, "terminals": len(terms)}
+                               "terminals": len(terms),
+                               "timing_s": {"prove": round(t_proved - t_start, 1),
+                                            "t2": round(time.time() - t_proved, 1)}}
     cov["distribution"][label] = dict(sorted(dist.items()))
